@@ -103,15 +103,19 @@ def digits_of(v):
 
 
 def rule_cases(quick):
-    """-> [(case, NA, groups, [prefixes])]   NA = sign + (digits of the widest accepted numeral + 1) + one trailing byte for 8/16-bit"""
-    out = []
-    G4 = G2 = [('ar',), ('ao',), ('nr',), ('no',)]
+    """-> [(case, NA, variants, [prefixes])]
 
-    def add(c, NA, groups=G2, prefixes=()):
-        out.append((c, NA, groups, list(prefixes)))
+    8/16-bit targets: NA = sign + (digits of the widest accepted numeral + 1) + one trailing byte, i.e. every numeral up to one digit
+    beyond the type's width, followed by an arbitrary byte or the end of the input.  32/64-bit targets: a short general buffer plus
+    boundary neighbourhoods (concrete high digits of Max-1 / Max+1, everything from the last two digits of the width on symbolic)."""
+    out = []
+    ALL = ('ar', 'ao', 'nr', 'no')
+    REQ = ('ar', 'nr')
+
+    def add(c, NA, variants=ALL, prefixes=()):
+        out.append((c, NA, variants, list(prefixes)))
 
     def pref(*vals):
-        # boundary neighbourhoods: concrete high digits of each value, the two low digits (and what follows) stay symbolic
         ps = []
         for v in vals:
             d = str(v)
@@ -120,37 +124,43 @@ def rule_cases(quick):
         return ps
 
     small = 5 if quick else 6
-    add(rule_case('ur', 'unsigned_rule'), small + 1, G4)
-    add(rule_case('sr', 'signed_rule', signed=True), small + 1, G4)
-    UMAX = {8: [255, 9, 10, 99, 100, 199], 16: [65535, 999, 1000, 1001, 9999, 10000],
-            32: [umax(32), 999999999, 1000000000, 1000000001, 65535], 64: [umax(64), 10 ** 19 - 1, 10 ** 19, 10 ** 19 + 1, 1 << 63, umax(32)]}
+    add(rule_case('ur', 'unsigned_rule'), small + 1)
+    add(rule_case('sr', 'signed_rule', signed=True), small + 1)
     if quick:
-        UMAX = {8: [255, 9, 100], 16: [65535, 999, 1000], 32: [umax(32), 1000000000], 64: [umax(64), 10 ** 19]}
+        UMAX = {8: [255, 9, 100], 16: [65535, 1000], 32: [umax(32)], 64: [umax(64)]}
+    else:
+        UMAX = {8: [255, 0, 9, 10, 99, 100, 199], 16: [65535, 999, 1000, 1001, 9999, 10000],
+                32: [umax(32), 999999999, 1000000000, 1000000001, 65535], 64: [umax(64), 10 ** 19 - 1, 10 ** 19, 10 ** 19 + 1, 1 << 63, umax(32)]}
     for b in (8, 16, 32, 64):
         U, S = UT[b], ST[b]
         full = b <= 16
         M = umax(b)
-        na = digits_of(M) + 2 if full else small
-        pf = [] if full else pref(M - 1, M + 1)
-        nas = digits_of(M >> 1) + 3 if full else small + 1
         SM = M >> 1
+        na = digits_of(M) + 2 if full else small
+        nas = digits_of(SM) + 3 if full else small + 1
+        pf = [] if full else pref(M - 1, M + 1)
         pfs = [] if full else pref(SM, SM + 2)
-        add(rule_case('ur_act_u%d' % b, 'unsigned_rule', U, 'c15::bind< unsigned_action, unsigned_rule >::on', b, maxpos=M, ovf_a=2, conv=1), na, prefixes=pf)
-        add(rule_case('ura_u%d' % b, 'unsigned_rule_with_action', U, None, b, maxpos=M, ovf_a=2, conv=1), na, prefixes=pf)
-        add(rule_case('sr_act_s%d' % b, 'signed_rule', S, 'c15::bind< signed_action, signed_rule >::on', b, signed=True, maxpos=SM, maxneg=SM + 1, ovf_a=2, conv=1), nas, prefixes=pfs)
-        add(rule_case('sra_s%d' % b, 'signed_rule_with_action', S, None, b, signed=True, maxpos=SM, maxneg=SM + 1, ovf_a=2, conv=1), nas, prefixes=pfs)
+        v1 = ALL if (b == 8 or not quick) else REQ
+        if b == 8 or not quick:
+            add(rule_case('ur_act_u%d' % b, 'unsigned_rule', U, 'c15::bind< unsigned_action, unsigned_rule >::on', b, maxpos=M, ovf_a=2, conv=1), na, v1, pf)
+            add(rule_case('sr_act_s%d' % b, 'signed_rule', S, 'c15::bind< signed_action, signed_rule >::on', b, signed=True, maxpos=SM, maxneg=SM + 1, ovf_a=2, conv=1), nas, v1, pfs)
+        add(rule_case('ura_u%d' % b, 'unsigned_rule_with_action', U, None, b, maxpos=M, ovf_a=2, conv=1), na, v1 if b == 8 or not quick else ALL if b == 16 else REQ, pf)
+        add(rule_case('sra_s%d' % b, 'signed_rule_with_action', S, None, b, signed=True, maxpos=SM, maxneg=SM + 1, ovf_a=2, conv=1), nas, v1 if b == 8 or not quick else ALL if b == 16 else REQ, pfs)
         for mx in UMAX[b]:
             ml = cxxlit(mx, b)
             mr = 'maximum_rule< %s, %s >' % (U, ml)
             ma = 'maximum_action< %s, %s >' % (U, ml)
-            na = digits_of(mx) + 2 if full else max(small, min(digits_of(mx) + 2, small))
-            pf = [] if full else pref(mx - 1, mx + 1)
-            if not full and digits_of(mx) + 2 <= small + 1:
+            if full or digits_of(mx) + 2 <= small + 1:
                 na, pf = digits_of(mx) + 2, []
-            add(rule_case('mr_u%d_%d' % (b, mx), mr, None, None, 64, maxpos=mx, ovf_a=1, ovf_n=1), na, G4, prefixes=pf)
-            add(rule_case('mr_act_u%d_%d' % (b, mx), mr, U, 'c15::bind< %s, %s >::on' % (ma, mr), b, maxpos=mx, ovf_a=1, ovf_n=1, conv=1), na, prefixes=pf)
-            add(rule_case('ur_mact_u%d_%d' % (b, mx), 'unsigned_rule', U, 'c15::bind< %s, unsigned_rule >::on' % ma, b, maxpos=mx, ovf_a=2, conv=1), na, prefixes=pf)
-            add(rule_case('mra_u%d_%d' % (b, mx), 'maximum_rule_with_action< %s, %s >' % (U, ml), U, None, b, maxpos=mx, ovf_a=2, ovf_n=2, conv=1), na, prefixes=pf)
+            else:
+                na, pf = small, pref(mx - 1, mx + 1)
+            main = mx == M
+            v2 = ALL if (not quick or (b == 8 and main)) else REQ
+            add(rule_case('mr_u%d_%d' % (b, mx), mr, None, None, 64, maxpos=mx, ovf_a=1, ovf_n=1), na, v2, pf)
+            add(rule_case('mra_u%d_%d' % (b, mx), 'maximum_rule_with_action< %s, %s >' % (U, ml), U, None, b, maxpos=mx, ovf_a=2, ovf_n=2, conv=1), na, v2, pf)
+            if not quick or (b == 8 and main):
+                add(rule_case('mr_act_u%d_%d' % (b, mx), mr, U, 'c15::bind< %s, %s >::on' % (ma, mr), b, maxpos=mx, ovf_a=1, ovf_n=1, conv=1), na, v2, pf)
+                add(rule_case('ur_mact_u%d_%d' % (b, mx), 'unsigned_rule', U, 'c15::bind< %s, unsigned_rule >::on' % ma, b, maxpos=mx, ovf_a=2, conv=1), na, v2, pf)
     return out
 
 
@@ -297,7 +307,8 @@ def conv_queries(ctx, qs, bits, signed, quick):
 def plan(ctx):
     qs = []
     quick = ctx.quick()
-    for c, NA, groups, prefixes in rule_cases(quick):
+    for c, NA, variants, prefixes in rule_cases(quick):
+        groups = [(v,) for v in variants]       # one variant per query: the SAT instances grow faster than linearly when variants share a run
         rule_queries(ctx, qs, c, NA, groups)
         for p in prefixes:
             sg = 1 if c['signed'] else 0
